@@ -611,7 +611,7 @@ class World(BaseWorld):
                 r = call(setattr, a, defs[j % len(defs)], [0.0, 1.0, 0.5][j % 3])
             elif kind == 'new_asset' and model.assets:
                 t = type(model.assets[i % len(model.assets)]).__name__
-                r = call(model.add_asset, getattr(fac.ns, t)(name=f'extra{len(done)}'))
+                r = call(lambda: model.add_asset(getattr(fac.ns, t)(name=f'extra{len(done)}')))
             else:
                 continue
             if r.raised:
